@@ -88,11 +88,11 @@ theorem children_lift (p : Nat) (h : childrenRowOk p = true) (c : Nat) :
 /-! ### text -/
 
 def textRowOk (e : Nat) : Bool :=
-  (T.allowsText.contains e == schema.mayText e) || excused .text (elemName e) NOITEM
+  (allowsTextOf T e == schema.mayText e) || excused .text (elemName e) NOITEM
 
-theorem allowsText_eq (e : Nat) : allowsText' T e = T.allowsText.contains e := by
+theorem allowsText_eq (e : Nat) : allowsText' T e = allowsTextOf T e := by
   unfold allowsText' addText
-  cases T.allowsText.contains e <;> rfl
+  cases allowsTextOf T e <;> rfl
 
 theorem text_lift (e : Nat) (h : textRowOk e = true) :
     allowsText' T e = schema.mayText e ∨ excused .text (elemName e) NOITEM = true := by
